@@ -1,5 +1,223 @@
-//! seeded drivers (impl -> spec traces)
-pub fn main(_driver: &str, _seed: u64, _n: u64, _out: &str) -> i32 {
-    eprintln!("no drivers yet");
-    2
+//! Seeded drivers (impl -> spec): run the real code on generated inputs and record one event per
+//! public call.  The inputs are derived from TLC-generated seed vectors by byte-level mutation
+//! (decoders) or by value-level mutation of the abstract records (encoders); the oracle for every
+//! recorded event is the trace specification, not this file.
+use serde_json::{json, Value};
+use std::io::{BufRead, Write};
+
+pub struct Rng(pub u64);
+impl Rng {
+    pub fn next(&mut self) -> u64 {
+        // splitmix64
+        self.0 = self.0.wrapping_add(0x9E3779B97F4A7C15);
+        let mut z = self.0;
+        z = (z ^ (z >> 30)).wrapping_mul(0xBF58476D1CE4E5B9);
+        z = (z ^ (z >> 27)).wrapping_mul(0x94D049BB133111EB);
+        z ^ (z >> 31)
+    }
+    pub fn below(&mut self, n: usize) -> usize {
+        if n == 0 { 0 } else { (self.next() % n as u64) as usize }
+    }
+    pub fn byte(&mut self) -> u8 {
+        self.next() as u8
+    }
+}
+
+const INTERESTING: [u8; 24] = [0x00, 0x01, 0x17, 0x18, 0x19, 0x1A, 0x1B, 0x1F, 0x20, 0x38, 0x40, 0x58, 0x5F, 0x60, 0x78, 0x7F, 0x80, 0x9F, 0xA0, 0xBF, 0xC0, 0xF4, 0xF6, 0xFF];
+
+pub fn mutate_bytes(rng: &mut Rng, b: &mut Vec<u8>, others: &[Vec<u8>]) {
+    let n = 1 + rng.below(3);
+    for _ in 0..n {
+        match rng.below(9) {
+            0 if !b.is_empty() => { let i = rng.below(b.len()); b[i] ^= 1 << rng.below(8); }
+            1 if !b.is_empty() => { let i = rng.below(b.len()); b[i] = INTERESTING[rng.below(INTERESTING.len())]; }
+            2 if !b.is_empty() => { let i = rng.below(b.len()); b[i] = rng.byte(); }
+            3 => { let i = rng.below(b.len() + 1); b.insert(i, INTERESTING[rng.below(INTERESTING.len())]); }
+            4 if !b.is_empty() => { let i = rng.below(b.len()); b.remove(i); }
+            5 if !b.is_empty() => { let i = rng.below(b.len()); b.truncate(i); }
+            6 if !b.is_empty() => {
+                // duplicate a slice
+                let i = rng.below(b.len()); let l = 1 + rng.below((b.len() - i).min(24));
+                let s: Vec<u8> = b[i..i + l].to_vec(); let j = rng.below(b.len() + 1);
+                for (k, x) in s.into_iter().enumerate() { b.insert(j + k, x); }
+            }
+            7 if !others.is_empty() && !b.is_empty() => {
+                // splice a slice of another seed
+                let o = &others[rng.below(others.len())];
+                if !o.is_empty() {
+                    let i = rng.below(o.len()); let l = 1 + rng.below((o.len() - i).min(40));
+                    let j = rng.below(b.len());
+                    let end = (j + l).min(b.len());
+                    b.splice(j..end, o[i..i + l].iter().cloned());
+                }
+            }
+            _ if b.len() >= 2 => {
+                // increment / decrement a byte (length heads, counts)
+                let i = rng.below(b.len());
+                b[i] = if rng.below(2) == 0 { b[i].wrapping_add(1) } else { b[i].wrapping_sub(1) };
+            }
+            _ => {}
+        }
+    }
+    b.truncate(7609);
+}
+
+/// value-level mutation of an abstract record (encoder inputs)
+fn mutate_value(rng: &mut Rng, v: &mut Value, depth: usize) {
+    match v {
+        Value::Array(a) => {
+            let is_bytes = !a.is_empty() && a.iter().all(|x| x.as_u64().map(|n| n < 256).unwrap_or(false));
+            if is_bytes {
+                match rng.below(5) {
+                    0 => { let i = rng.below(a.len()); a[i] = json!(rng.byte()); }
+                    1 => { a.pop(); }
+                    2 => { a.push(json!(rng.byte())); }
+                    3 => { let n = rng.below(a.len() + 1); a.truncate(n); }
+                    _ => { for x in a.iter_mut() { *x = json!(rng.byte()); } }
+                }
+            } else if a.len() == 1 && rng.below(4) == 0 {
+                a.clear(); // drop an optional member
+            } else if !a.is_empty() {
+                let i = rng.below(a.len());
+                mutate_value(rng, &mut a[i], depth + 1);
+            }
+        }
+        Value::Object(m) => {
+            if m.is_empty() { return; }
+            let keys: Vec<String> = m.keys().cloned().collect();
+            let k = &keys[rng.below(keys.len())];
+            if k == "kind" || k == "variant" || k == "flavour" || k == "packed" { return; }
+            mutate_value(rng, m.get_mut(k).unwrap(), depth + 1);
+        }
+        Value::Bool(b) => { *b = !*b; }
+        Value::Number(n) => {
+            if let Some(x) = n.as_i64() {
+                let nx = match rng.below(4) { 0 => x + 1, 1 => x - 1, 2 => 0, _ => 255 };
+                *v = json!(nx.clamp(-2147483648, 2147483647));
+            }
+        }
+        _ => {}
+    }
+}
+
+fn wire_field(op: &str) -> Option<&'static str> {
+    match op {
+        "decode2" | "apdu" => Some("wire"),
+        "decode_type" => Some("bytes"),
+        _ => None,
+    }
+}
+
+fn get_bytes(v: &Value) -> Vec<u8> {
+    v.as_array().map(|a| a.iter().map(|x| x.as_u64().unwrap_or(0) as u8).collect()).unwrap_or_default()
+}
+
+/// `mutate`: seeds file (TLC vectors) -> mutated inputs -> events
+fn mutate(seeds: &str, seed: u64, n: u64, out: &str) -> i32 {
+    let f = std::io::BufReader::new(std::fs::File::open(seeds).expect("open seeds"));
+    let seeds: Vec<Value> = f.lines().filter_map(|l| serde_json::from_str(&l.ok()?).ok()).collect();
+    if seeds.is_empty() {
+        eprintln!("no seeds");
+        return 2;
+    }
+    let wires: Vec<Vec<u8>> = seeds.iter().filter_map(|s| {
+        let op = s.get("op")?.as_str()?;
+        wire_field(op).map(|f| get_bytes(&s[f]))
+    }).collect();
+    let mut rng = Rng(seed ^ 0xC7A9_0000);
+    let mut w = std::io::BufWriter::new(std::fs::File::create(out).expect("create out"));
+    let (mut written, mut attempts) = (0u64, 0u64);
+    while written < n && attempts < n * 20 {
+        attempts += 1;
+        let mut inp = seeds[rng.below(seeds.len())].clone();
+        let op = inp["op"].as_str().unwrap_or("").to_string();
+        if let Some(m) = inp.as_object_mut() {
+            m.remove("exp");
+            m.insert("tag".into(), json!("mutated"));
+        }
+        match wire_field(&op) {
+            Some(f) => {
+                let mut b = get_bytes(&inp[f]);
+                mutate_bytes(&mut rng, &mut b, &wires);
+                inp[f] = crate::proj::bytes(&b);
+            }
+            None => {
+                let keys = ["resp", "v", "in", "pre"];
+                let present: Vec<&str> = keys.iter().cloned().filter(|k| inp.get(*k).is_some()).collect();
+                if present.is_empty() { continue; }
+                let k = present[rng.below(present.len())];
+                let mut sub = inp[k].clone();
+                mutate_value(&mut rng, &mut sub, 0);
+                inp[k] = sub;
+            }
+        }
+        let res = crate::guarded(&op, &inp);
+        if res["outcome"] == "toolerr" {
+            continue; // the mutated value is not representable (over capacity): not an event
+        }
+        let ev = json!({"line": written, "op": op, "outcome": res["outcome"], "obs": res["obs"], "msg": res.get("msg").cloned().unwrap_or(json!("")), "in": inp});
+        writeln!(w, "{}", ev).unwrap();
+        written += 1;
+    }
+    w.flush().unwrap();
+    0
+}
+
+/// `arbitrary`: byte strings for the Arbitrary implementations
+#[cfg(feature = "arbitrary")]
+fn arbitrary_driver(seed: u64, n: u64, out: &str) -> i32 {
+    let mut rng = Rng(seed ^ 0xA4B1_7A47);
+    let mut w = std::io::BufWriter::new(std::fs::File::create(out).expect("create out"));
+    let lens = [0usize, 1, 2, 3, 7, 8, 31, 32, 33, 63, 64, 65, 127, 128, 129, 255, 256, 1024, 4096];
+    let gens = ["ctap2", "ctap1", "combined"];
+    let mut inputs: Vec<Vec<u8>> = vec![];
+    // structured corner inputs
+    for &l in &lens {
+        inputs.push(vec![0u8; l]);
+        inputs.push(vec![0xFFu8; l]);
+    }
+    for b in 0..=255u8 {
+        inputs.push(vec![b; 96]);
+        inputs.push(vec![b; 700]);
+    }
+    // random strings biased towards UTF-8 lead / continuation bytes and ill-formed sequences
+    let special: [u8; 16] = [0x00, 0x01, 0x7F, 0x80, 0xBF, 0xC0, 0xC2, 0xDF, 0xE0, 0xED, 0xEF, 0xF0, 0xF4, 0xF5, 0xFE, 0xFF];
+    while (inputs.len() as u64) < n {
+        let l = if rng.below(3) == 0 { lens[rng.below(lens.len())] } else { rng.below(1500) };
+        let mode = rng.below(4);
+        let v: Vec<u8> = (0..l).map(|_| match mode {
+            0 => rng.byte(),
+            1 => if rng.below(3) == 0 { special[rng.below(16)] } else { rng.byte() },
+            2 => if rng.below(2) == 0 { 0xFF } else { rng.byte() },
+            _ => if rng.below(4) == 0 { 0x01 } else { special[rng.below(16)] },
+        }).collect();
+        inputs.push(v);
+    }
+    let mut line = 0u64;
+    for data in inputs.iter().take(n as usize) {
+        for g in gens {
+            let inp = json!({"op": "arbitrary", "tag": "arbitrary", "gen": g, "data": crate::proj::bytes(data)});
+            let res = crate::guarded("arbitrary", &inp);
+            let ev = json!({"line": line, "op": "arbitrary", "outcome": res["outcome"], "obs": res["obs"],
+                            "msg": res.get("msg").cloned().unwrap_or(json!("")), "in": inp});
+            writeln!(w, "{}", ev).unwrap();
+            line += 1;
+        }
+    }
+    w.flush().unwrap();
+    0
+}
+
+pub fn main(driver: &str, seed: u64, n: u64, out: &str) -> i32 {
+    if let Some(seeds) = driver.strip_prefix("mutate:") {
+        return mutate(seeds, seed, n, out);
+    }
+    match driver {
+        #[cfg(feature = "arbitrary")]
+        "arbitrary" => arbitrary_driver(seed, n, out),
+        _ => {
+            eprintln!("unknown driver {}", driver);
+            2
+        }
+    }
 }
